@@ -179,6 +179,10 @@ class _BlackbirdPrinter(StrPrinter):
     A power that directly follows a leading minus sign is therefore bracketed.
     """
 
+    def _print_ImaginaryUnit(self, expr):
+        # SymPy's ``I`` is no Blackbird name; complex coefficients are written with a complex literal
+        return "1j"
+
     def _print_Mul(self, expr):
         res = super()._print_Mul(expr)
         if not res.startswith("-"):
